@@ -42,6 +42,9 @@ pub struct Pass0Context {
     pub macros: Rc<Macro>,
     // messages
     pub messages: Rc<RefCell<Vec<String>>>,
+    // flash size of the device in words, and how many instructions were placed so far
+    pub flash_size: u32,
+    pub instructions: std::cell::Cell<u64>,
 }
 
 impl Pass0Context {
@@ -88,6 +91,8 @@ pub fn build_pass_0(
         segments: Rc::new(RefCell::new(vec![])),
         macros: Rc::new(Macro::new()),
         messages: Rc::new(RefCell::new(parsed.messages)),
+        flash_size: crate::context::Context::get_device(common_context).flash_size,
+        instructions: std::cell::Cell::new(0),
     };
 
     for segment in parsed.segments {
@@ -156,6 +161,16 @@ fn pass0_internal(
                     }
                 }
                 _ => {
+                    // every instruction takes at least one word: macros that multiply
+                    // themselves must not be expanded beyond what the device can hold
+                    context.instructions.set(context.instructions.get() + 1);
+                    if context.instructions.get() > context.flash_size as u64 {
+                        bail!(
+                            "Flash size overdue: more than {} instructions, {}",
+                            context.flash_size,
+                            line
+                        );
+                    }
                     context.push_to_last((line.clone(), item.clone()));
                 }
             },
